@@ -1281,6 +1281,9 @@ def run_legacy(ctx, zoo, spaces, lines, meta, thorough):
                 line = 'legacyred name={} '.format(name) + \
                     model_line(rr, iface='legacy')[len('ufunc '):]
                 lines.append(line)
+            else:
+                line = 'plegacyred name={} np={}'.format(name, np_desc(npres, 1))
+                lines.append(line)
             meta.append((c, r, problems, line))
             continue
         u = getattr(np, name)
@@ -1357,10 +1360,89 @@ def run_legacy(ctx, zoo, spaces, lines, meta, thorough):
             line = ('legacy name={} lout={} '.format(name, lout) +
                     model_line(r, iface='legacy')[len('ufunc '):])
             lines.append(line)
+        else:
+            line = 'plegacy name={} shape={} dtype={} outs={} np={}'.format(
+                name, shp(space.shape), base_dtype(space).name,
+                'absent' if given is None else ''.join(out_kind(g, c) for g in given),
+                np_desc(npres, u.nout))
+            lines.append(line)
         meta.append((c, r, problems, line))
 
 
 # ---------------------------------------------------------------------------
+
+def model_branch(c, r, ans):
+    """Which branch of the Lean model answered: model/<kind>/<method>/<outcome class>."""
+    if ans.startswith('ok '):
+        cls = 'ok:' + '+'.join(t.split(':')[0].rstrip('0123456789') for t in ans.split()[1:])
+    elif ans.startswith('err:') and r['npo'][0] == 'err' and \
+            ans == 'err:' + type(r['npo'][1]).__name__:
+        cls = 'err:numpy'        # NumPy's own exception propagated
+    else:
+        cls = ans
+    return 'model/{}/{}/{}'.format(c.kind, c.method.strip('_'), cls)
+
+
+# every branch of the decision model that the enumeration is expected to reach (a branch
+# missing from a run is reported as `unhit_model_branches`; in the thorough tier it fails
+# the correspondence obligation: a silent loss of generator coverage must be visible)
+EXPECTED_MODEL_BRANCHES = [
+    'model/discr/accumulate/err:ValueError', 'model/discr/accumulate/err:numpy',
+    'model/discr/accumulate/notimpl', 'model/discr/accumulate/ok:given',
+    'model/discr/accumulate/ok:wrap', 'model/discr/at/err:ValueError',
+    'model/discr/at/err:numpy', 'model/discr/at/notimpl', 'model/discr/at/ok:none',
+    'model/discr/call/err:ValueError', 'model/discr/call/err:numpy',
+    'model/discr/call/notimpl', 'model/discr/call/ok:given', 'model/discr/call/ok:given+given',
+    'model/discr/call/ok:given+wrap', 'model/discr/call/ok:wrap',
+    'model/discr/call/ok:wrap+given', 'model/discr/call/ok:wrap+wrap',
+    'model/discr/outer/err:TypeError', 'model/discr/outer/err:ValueError',
+    'model/discr/outer/err:numpy', 'model/discr/outer/notimpl', 'model/discr/outer/ok:given',
+    'model/discr/outer/ok:wrap', 'model/discr/reduce/err:ValueError',
+    'model/discr/reduce/err:numpy', 'model/discr/reduce/notimpl',
+    'model/discr/reduce/ok:given', 'model/discr/reduce/ok:scalar',
+    'model/discr/reduce/ok:wrap', 'model/discr/reduceat/err:ValueError',
+    'model/discr/reduceat/err:numpy', 'model/discr/reduceat/notimpl',
+    'model/legacy-discr/call/err:numpy', 'model/legacy-discr/call/ok:given',
+    'model/legacy-discr/call/ok:given+given', 'model/legacy-discr/call/ok:wrap',
+    'model/legacy-discr/call/ok:wrap+wrap', 'model/legacy-discr/reduce/err:ValueError',
+    'model/legacy-discr/reduce/ok:given', 'model/legacy-discr/reduce/ok:scalar',
+    'model/legacy-discr/reduce/ok:wrap', 'model/legacy-power/call/err:UFuncTypeError',
+    'model/legacy-power/call/err:numpy', 'model/legacy-power/call/ok:given',
+    'model/legacy-power/call/ok:given+given', 'model/legacy-power/call/ok:wrap',
+    'model/legacy-power/call/ok:wrap+wrap', 'model/legacy-power/reduce/ok:scalar',
+    'model/legacy-tensor/call/err:numpy', 'model/legacy-tensor/call/ok:given',
+    'model/legacy-tensor/call/ok:given+given', 'model/legacy-tensor/call/ok:wrap',
+    'model/legacy-tensor/call/ok:wrap+wrap', 'model/legacy-tensor/reduce/ok:given',
+    'model/legacy-tensor/reduce/ok:scalar', 'model/legacy-tensor/reduce/ok:wrap',
+    'model/power/accumulate/err:numpy', 'model/power/accumulate/ok:given',
+    'model/power/accumulate/ok:wrap', 'model/power/at/err:TypeError',
+    'model/power/at/err:numpy', 'model/power/call/err:TypeError', 'model/power/call/err:numpy',
+    'model/power/call/ok:given', 'model/power/call/ok:given+given', 'model/power/call/ok:wrap',
+    'model/power/call/ok:wrap+given', 'model/power/call/ok:wrap+wrap',
+    'model/power/outer/err:numpy', 'model/power/outer/ok:given', 'model/power/outer/ok:raw',
+    'model/power/reduce/err:ValueError', 'model/power/reduce/err:numpy',
+    'model/power/reduce/ok:given', 'model/power/reduce/ok:scalar',
+    'model/power/reduceat/err:ValueError', 'model/power/reduceat/err:numpy',
+    'model/power/reduceat/ok:given', 'model/power/reduceat/ok:wrap',
+    'model/tensor/accumulate/err:ValueError', 'model/tensor/accumulate/err:numpy',
+    'model/tensor/accumulate/notimpl', 'model/tensor/accumulate/ok:given',
+    'model/tensor/accumulate/ok:wrap', 'model/tensor/at/err:ValueError',
+    'model/tensor/at/err:numpy', 'model/tensor/at/notimpl', 'model/tensor/at/ok:none',
+    'model/tensor/call/err:ValueError', 'model/tensor/call/err:numpy',
+    'model/tensor/call/notimpl', 'model/tensor/call/ok:given',
+    'model/tensor/call/ok:given+given', 'model/tensor/call/ok:given+wrap',
+    'model/tensor/call/ok:wrap', 'model/tensor/call/ok:wrap+given',
+    'model/tensor/call/ok:wrap+wrap', 'model/tensor/outer/err:ValueError',
+    'model/tensor/outer/err:numpy', 'model/tensor/outer/notimpl',
+    'model/tensor/outer/ok:given', 'model/tensor/outer/ok:wrap',
+    'model/tensor/reduce/err:ValueError', 'model/tensor/reduce/err:numpy',
+    'model/tensor/reduce/notimpl', 'model/tensor/reduce/ok:given',
+    'model/tensor/reduce/ok:scalar', 'model/tensor/reduce/ok:wrap',
+    'model/tensor/reduceat/err:ValueError', 'model/tensor/reduceat/err:numpy',
+    'model/tensor/reduceat/notimpl', 'model/tensor/reduceat/ok:given',
+    'model/tensor/reduceat/ok:wrap',
+]
+
 
 def regenerate(ctx):
     changed, detail = extract_legacy.regenerate()
@@ -1434,6 +1516,7 @@ def run(ctx, deep=False):
             ctx.err(imp)
         for code, text in problems:
             V.add(c.key(code, res_class(r)), '{} :: {}'.format(text, imp)[:400], c.desc())
+        ctx.hit(model_branch(c, r, ans))
         if ans != imp:
             ctx.disagree(dict(c.desc(), line=line), imp, ans)
     # ---- legacy
@@ -1442,12 +1525,30 @@ def run(ctx, deep=False):
         nontrivial = r['impl'][0] == 'ok' and r['npo'][0] == 'ok'
         ctx.case(c.sig() if nontrivial else None)
         ctx.hit('legacy/{}/{}'.format(c.kind, c.method.strip('_')))
+        if line is not None:
+            a = answers[line].split(' ', 1 if line.startswith('p') else 3)[-1]
+            ctx.hit('model/legacy-{}/{}/{}'.format(
+                c.kind, c.method.strip('_'),
+                ('ok:' + '+'.join(t.split(':')[0].rstrip('0123456789') for t in a.split()[1:]))
+                if a.startswith('ok ') else
+                ('err:numpy' if r['npo'][0] == 'err' and
+                 a == 'err:' + type(r['npo'][1]).__name__ else a)))
         for code, text in problems:
             V.add(c.key(code, res_class(r)), '{} :: {}'.format(text, imp)[:400], c.desc())
         if line is not None:
             ans = answers[line]
             toks = ans.split(' ', 3)
-            if len(toks) == 4 and toks[0].startswith('ufunc='):
+            if line.startswith('plegacyred '):
+                want_c = {'sum': 'sum', 'prod': 'prod', 'min': 'min', 'max': 'max'}[c.uname]
+                if ans != 'comb={} {}'.format(want_c, imp):
+                    ctx.disagree(dict(c.desc(), line=line), 'comb={} {}'.format(want_c, imp),
+                                 ans)
+            elif line.startswith('plegacy '):
+                want_u = c.ufunc.__name__
+                if ans != 'ufunc={} {}'.format(want_u, imp):
+                    ctx.disagree(dict(c.desc(), line=line), 'ufunc={} {}'.format(want_u, imp),
+                                 ans)
+            elif len(toks) == 4 and toks[0].startswith('ufunc='):
                 want_u = c.ufunc.__name__
                 if toks[0] != 'ufunc=' + want_u or toks[3] != imp:
                     ctx.disagree(dict(c.desc(), line=line), 'ufunc={} {}'.format(want_u, imp),
@@ -1465,6 +1566,14 @@ def run(ctx, deep=False):
         if answers[line] != impl:
             ctx.disagree(dict(d, line=line), impl, answers[line])
     V.flush()
+    hit = set(k for k in ctx.branches if k.startswith('model/'))
+    unhit = sorted(set(EXPECTED_MODEL_BRANCHES) - hit)
+    ctx.extra['model_branches_hit'] = len(hit)
+    ctx.extra['unhit_model_branches'] = unhit
+    ctx.extra['unexpected_model_branches'] = sorted(hit - set(EXPECTED_MODEL_BRANCHES))
+    if unhit and ctx.tier == 'thorough':
+        ctx.disagree({'unhit_model_branches': unhit}, 'not reached by the enumeration',
+                     'expected to be reached', stream='coverage')
 
 
 def search(ctx, broken):
